@@ -8,10 +8,15 @@ file included) × limit × passes × ANY chosen-predicate (chosencases subsets m
 nothing) and any cancellation point ≥ 1; no bound on sizes (induction over the loops, `Proofs/C14.lean`,
 `Proofs/C08*.lean`).  The loops carry explicit fuel; that the run ENDS within the fuel the model supplies is part
 of the theorems (`runWith … = some o`).
-Tie: correspondence harness harness/cmd/c14 (real providers via NewProvider, preload off/on on the same file)
-+ `Pandora.Drv.C14`; `C14_spec_holds` links the executable Spec that judges the real providers to the model.
+Tie: (1) regenerated — `Pandora.Bridge.C14` proves that the filter function, the place where each path applies it,
+the loop bodies of runFullScan / runPreloaded, the sentinel mapping and the deferred close regenerated from the
+current Go source on every check run (`Gen/ChosenCases.lean`, `Gen/ProvLoops.lean`) are what the model says
+(`C14_model_is_source`, `C14_listed_is_source_filter`); (2) correspondence — harness/cmd/c14 (real providers via
+NewProvider or the plugin registry, preload off/on on the same source) + `Pandora.Drv.C14`; `C14_spec_holds` links
+the executable Spec that judges the real providers to the model.
 -/
 import Pandora.Proofs.C14Spec
+import Pandora.Bridge.C14
 
 namespace Pandora.Props.C14
 open Pandora.Model.C08 hiding fullScan httpRun runFuel run
@@ -125,12 +130,86 @@ theorem C14_unbounded_prefix (k : Fmt) (preload : Bool) (file : List α) (chosen
   have := C14_run k preload file chosen ⟨0, 0⟩ (some c) c hf (by simp [target])
   simpa [cancelled] using this
 
-/-- **Spec holds of Model.run** for every cell shape the harness generates (cap ≥ 1; cap greater than the
-expected count of a bounded cell): the executable Spec that judges the two real providers accepts the pair of
-observations the model predicts — for every format, file (also the empty one and the one NewProvider rejects),
-chosencases list, limit and passes. -/
+/-- **cancelled in the middle** (of a pass, of the run): the context is cancelled when `c ≥ 1` ammo have been
+acquired and `c` is below the number `m` of ammo the bounded run would deliver — both modes have delivered exactly the
+first `c` entries of the repeated list of the entries whose tag is listed, `Run` returns context.Canceled in both
+modes and the sink is closed. -/
+theorem C14_chosen_cancelled (k : Fmt) (preload : Bool) (tags cases : List String) (b : Bounds) (m c : Nat)
+    (hcases : cases ≠ []) (hf : 0 < (listed tags cases).length)
+    (hm : Spec.C14.expected b.limit b.passes (listed tags cases).length = some m) (hcm : c < m) :
+    run k preload tags cases b (some c) = some ⟨cyclicPrefix (listed tags cases) c, .canceled, true⟩ := by
+  unfold listed at *
+  rw [← filter_isChosen_eq_mem cases hcases] at hf hm ⊢
+  rw [expected_eq_target _ _ _ hf] at hm
+  have hT : target b.limit b.passes ((mkFile tags).filter (isChosen cases)).length (some c) = some c := by
+    rw [target_cancel _ _ _ m c hm, Nat.min_eq_left (by omega)]
+  have := C14_run k preload (mkFile tags) (isChosen cases) b (some c) c hf hT
+  simpa [run, cancelled] using this
+
+/-- **whole passes**: with `passes = p ≥ 1` and no limit, both modes deliver the list of the entries whose tag is
+listed, in file order, exactly `p` times — nothing else, nothing missing. -/
+theorem C14_passes_complete (k : Fmt) (preload : Bool) (tags cases : List String) (p : Nat)
+    (hcases : cases ≠ []) (hf : 0 < (listed tags cases).length) (hp : 0 < p) :
+    run k preload tags cases ⟨0, p⟩ none = some ⟨(List.replicate p (listed tags cases)).flatten, .nil, true⟩ := by
+  have hm : Spec.C14.expected 0 p (listed tags cases).length = some (p * (listed tags cases).length) := by
+    unfold Spec.C14.expected
+    cases p with
+    | zero => omega
+    | succ p => rfl
+  rw [C14_chosen k preload tags cases ⟨0, p⟩ _ hcases hf hm]
+  have : cyclicPrefix (listed tags cases) (p * (listed tags cases).length) = (List.replicate p (listed tags cases)).flatten := by
+    have h := cycTake_full (listed tags cases) p hf
+    unfold cycTake rep at h
+    exact h
+  rw [this]
+
+/-- … so an entry of the file is delivered **iff its tag is listed** (as soon as one pass is complete). -/
+theorem C14_exactly_listed (k : Fmt) (preload : Bool) (tags cases : List String) (p : Nat)
+    (hcases : cases ≠ []) (hf : 0 < (listed tags cases).length) (hp : 0 < p) :
+    ∃ o, run k preload tags cases ⟨0, p⟩ none = some o ∧
+      ∀ e, e ∈ o.delivered ↔ (e ∈ mkFile tags ∧ e.tag ∈ cases) := by
+  refine ⟨_, C14_passes_complete k preload tags cases p hcases hf hp, ?_⟩
+  intro e
+  simp only [List.mem_flatten, List.mem_replicate]
+  constructor
+  · rintro ⟨l, ⟨_, rfl⟩, he⟩
+    simpa [listed] using he
+  · intro he
+    exact ⟨listed tags cases, ⟨by omega, rfl⟩, by simpa [listed] using he⟩
+
+/-! ## the model is the source (regenerated definitions, `Pandora.Bridge.C14`) -/
+
+/-- The chosen-case filter of the model is `confutil.IsChosenCase` as regenerated from the source, applied to the
+entry's tag and the configured list; the preloaded path keeps exactly `filter chosen` of what `LoadAmmo` returned
+(regenerated loop of `loadAmmo`), BEFORE the cyclic replay; the streaming path asks the filter about the ammo that
+`Decoder.Scan` just returned and counts an ammo only when it is sent (regenerated loop body of `runFullScan`);
+`Provider.Run` is built from these pieces, the sentinel mapping and the deferred close as regenerated. -/
+theorem C14_model_is_source :
+    (∀ (cases : List String) (e : Entry), isChosen cases e = Gen.ChosenCases.isChosenCase e.tag cases) ∧
+    (∀ (chosen : Entry → Bool) (ammos : List Entry), Gen.ChosenCases.loadAmmoKeep chosen ammos = ammos.filter chosen) ∧
+    (∀ (preload : Bool), Gen.ChosenCases.runPath preload = if preload then ["loadAmmo", "ok:runPreloaded"] else ["runFullScan"]) ∧
+    Gen.ProvLoops.httpRunCloses = true ∧ (∀ l, Gen.ProvLoops.decoderLimit l = 0) ∧
+    Gen.ProvLoops.runPreloadedDone = Gen.ProvLoops.runFullScanDone :=
+  ⟨Bridge.C14.isChosen_eq_source, Bridge.C14.loadAmmoKeep_eq, fun p => by cases p <;> rfl, rfl, fun _ => rfl, rfl⟩
+
+/-- With a non-empty chosencases list, filtering a file with the REGENERATED `IsChosenCase` gives exactly the
+entries whose tag is listed (the list the theorems above speak about); with an empty list, the whole file. -/
+theorem C14_listed_is_source_filter (tags cases : List String) :
+    (mkFile tags).filter (fun e => Gen.ChosenCases.isChosenCase e.tag cases)
+      = if cases = [] then mkFile tags else listed tags cases := by
+  have h : (fun e : Entry => Gen.ChosenCases.isChosenCase e.tag cases) = isChosen cases := by
+    funext e; exact (Bridge.C14.isChosen_eq_source cases e).symm
+  rw [h]
+  by_cases hc : cases = []
+  · subst hc; simp [filter_isChosen_nil]
+  · rw [if_neg hc]; exact filter_isChosen_eq_mem cases hc _
+
+/-- **Spec holds of Model.run** for every cell shape the harness generates (cap ≥ 1; cap different from the number
+of ammo a bounded cell delivers — greater: never reached; smaller: the run is cancelled in the middle): the
+executable Spec that judges the two real providers accepts the pair of observations the model predicts — for every
+format, file (also the empty one and the one NewProvider rejects), chosencases list, limit and passes. -/
 theorem C14_spec_holds (k : Fmt) (tags cases : List String) (limit passes cap : Nat) (hcap : 0 < cap)
-    (hbig : ∀ m, Spec.C14.expectedCount ⟨tags, cases, limit, passes, cap⟩ = some m → m < cap) :
+    (hne : Spec.C14.inconclusive ⟨tags, cases, limit, passes, cap⟩ = false) :
     Spec.C14.holds ⟨tags, cases, limit, passes, cap⟩ (Drv.C14.modelObsOf k tags cases ⟨limit, passes⟩ cap) = true := by
   have hcne : (if cap = 0 then none else some cap) = some cap := by rw [if_neg (by omega)]
   have hc0 : some cap ≠ some 0 := by simp; omega
@@ -179,40 +258,43 @@ theorem C14_spec_holds (k : Fmt) (tags cases : List String) (limit passes cap : 
     have hcount : Spec.C14.expectedCount ⟨tags, cases, limit, passes, cap⟩
         = Spec.C14.expected limit passes ((mkFile tags).filter (isChosen cases)).length := by
       unfold Spec.C14.expectedCount; rw [hidlen]
-    have hchosen : Spec.C14.chosenOk ⟨tags, cases, limit, passes, cap⟩
-        ⟨Drv.C14.modelSideOf k false tags cases ⟨limit, passes⟩ cap,
-         Drv.C14.modelSideOf k false tags cases ⟨limit, passes⟩ cap, true⟩ = true := by
-      rw [hside]
-      unfold Spec.C14.chosenOk Spec.C14.expectedSeq
+    -- the count T at which the model's run stops, and what the Spec expects of it
+    have hT : ∃ T, target limit passes ((mkFile tags).filter (isChosen cases)).length (some cap) = some T ∧
+        Spec.C14.expectedLen ⟨tags, cases, limit, passes, cap⟩ = T ∧
+        Spec.C14.cutExpected ⟨tags, cases, limit, passes, cap⟩ = decide (cap ≤ T) := by
+      unfold Spec.C14.expectedLen Spec.C14.cutExpected
       cases hE : Spec.C14.expected limit passes ((mkFile tags).filter (isChosen cases)).length with
       | none =>
         have h00 : limit = 0 ∧ passes = 0 := by
           rw [expected_eq_target _ _ _ hf] at hE; exact (target_none_iff _ _ _).mp hE
         obtain ⟨rfl, rfl⟩ := h00
-        unfold run
-        rw [C14_unbounded_prefix k false (mkFile tags) (isChosen cases) cap hf]
-        have hl : (cyclicPrefix ((mkFile tags).filter (isChosen cases)) cap).length = cap :=
-          length_cycTake _ _ hf
-        simp only [hcount, hE, hids, Drv.C14.sideOf, hl]
-        have hm := map_cycTake (fun e : Entry => e.id) ((mkFile tags).filter (isChosen cases)) cap
-        unfold cycTake rep at hm
-        unfold cyclicPrefix
-        simp [hm, hcap]
+        exact ⟨cap, by simp [target], by simp [hcount, hE], by simp [hcount, hE]⟩
       | some m =>
-        have hlt : m < cap := hbig m (by rw [hcount, hE])
-        have hT : target limit passes ((mkFile tags).filter (isChosen cases)).length (some cap) = some m := by
-          have := target_cancel limit passes _ m cap (by rw [← expected_eq_target _ _ _ hf]; exact hE)
-          rw [this, Nat.min_eq_right (by omega)]
-        unfold run
-        rw [C14_run k false (mkFile tags) (isChosen cases) ⟨limit, passes⟩ (some cap) m hf hT]
-        have hl : (cyclicPrefix ((mkFile tags).filter (isChosen cases)) m).length = m :=
-          length_cycTake _ _ hf
-        simp only [hcount, hE, hids, Drv.C14.sideOf, hl]
-        have hm := map_cycTake (fun e : Entry => e.id) ((mkFile tags).filter (isChosen cases)) m
-        unfold cycTake rep at hm
-        unfold cyclicPrefix
-        have hnc : ¬ cap ≤ m := by omega
-        simp [hm, hnc]
+        have hmc : m ≠ cap := by
+          intro h
+          have : Spec.C14.inconclusive ⟨tags, cases, limit, passes, cap⟩ = true := by
+            unfold Spec.C14.inconclusive; rw [hcount, hE, h]; simp
+          rw [this] at hne; exact Bool.noConfusion hne
+        have htc := target_cancel limit passes _ m cap (by rw [← expected_eq_target _ _ _ hf]; exact hE)
+        by_cases hlt : cap < m
+        · refine ⟨cap, by rw [htc, Nat.min_eq_left (by omega)], by simp [hcount, hE, hlt], by simp [hcount, hE, hlt]⟩
+        · have hgt : m < cap := by omega
+          have hnle : ¬ cap ≤ m := by omega
+          refine ⟨m, by rw [htc, Nat.min_eq_right (by omega)], by simp [hcount, hE, hlt], by simp [hcount, hE, hlt, hnle]⟩
+    obtain ⟨T, hTt, hTlen, hTcut⟩ := hT
+    have hchosen : Spec.C14.chosenOk ⟨tags, cases, limit, passes, cap⟩
+        ⟨Drv.C14.modelSideOf k false tags cases ⟨limit, passes⟩ cap,
+         Drv.C14.modelSideOf k false tags cases ⟨limit, passes⟩ cap, true⟩ = true := by
+      rw [hside]
+      unfold Spec.C14.chosenOk Spec.C14.expectedSeq
+      unfold run
+      rw [C14_run k false (mkFile tags) (isChosen cases) ⟨limit, passes⟩ (some cap) T hf hTt]
+      have hl : (cyclicPrefix ((mkFile tags).filter (isChosen cases)) T).length = T := length_cycTake _ _ hf
+      simp only [hTlen, hTcut, hids, Drv.C14.sideOf, hl]
+      have hm := map_cycTake (fun e : Entry => e.id) ((mkFile tags).filter (isChosen cases)) T
+      unfold cycTake rep at hm
+      unfold cyclicPrefix
+      simp [hm, hcap]
     simp [hchosen, Spec.C14.equivOk, Spec.C14.seqEquivOk, Spec.C14.endEquivOk, Spec.C14.tagsOk]
 
 /-! ## the earlier revisions of the code do NOT have the property -/
@@ -282,6 +364,23 @@ example : (runWith .raw true [0, 1, 2] (fun _ => false) ⟨2, 0⟩ none).map (fu
 -- unbounded, cancelled after 5 acquisitions
 example : (runWith .uripost false [0, 1, 2] (fun i => decide (i ≠ 1)) ⟨0, 0⟩ (some 5)).map (fun o => (o.delivered, o.run))
     = some ([0, 2, 0, 2, 0], .canceled) := by decide
+-- cancelled in the middle of the second pass: limit 5, chosen [t2,t3], cancelled after 3 acquisitions
+example : (run .jsonLines false ["t1", "t2", "t3"] ["t2", "t3"] ⟨5, 0⟩ (some 3)).map (fun o => (o.delivered.map (·.id), o.run, o.sinkClosed))
+    = some ([1, 2, 1], .canceled, true) := by decide
+example : (run .jsonLines true ["t1", "t2", "t3"] ["t2", "t3"] ⟨5, 0⟩ (some 3)).map (fun o => (o.delivered.map (·.id), o.run, o.sinkClosed))
+    = some ([1, 2, 1], .canceled, true) := by decide
+-- hypotheses of C14_chosen_cancelled / C14_passes_complete / C14_exactly_listed
+example : ["t2", "t3"] ≠ [] ∧ 0 < (listed ["t1", "t2", "t3"] ["t2", "t3"]).length ∧
+    Spec.C14.expected 5 0 (listed ["t1", "t2", "t3"] ["t2", "t3"]).length = some 5 ∧ 3 < 5 := by decide
+example : (run .raw true ["t1", "t2", "t3"] ["t2", "t3"] ⟨0, 2⟩ none).map (fun o => o.delivered.map (·.id)) = some [1, 2, 1, 2] := by decide
+-- the regenerated IsChosenCase on concrete tags: whole-tag, case-sensitive comparison; untagged entries
+example : Gen.ChosenCases.isChosenCase "ab" ["a", "b"] = false ∧ Gen.ChosenCases.isChosenCase "B" ["b"] = false ∧
+    Gen.ChosenCases.isChosenCase "" ["a"] = false ∧ Gen.ChosenCases.isChosenCase "" [""] = true ∧
+    Gen.ChosenCases.isChosenCase "x" [] = true ∧ Gen.ChosenCases.isChosenCase "b" ["a", "b"] = true := by decide
+-- C14_spec_holds: a cell cancelled in the middle (cap 3 < 5) and one that is not (cap 9 > 5) are not inconclusive
+example : Spec.C14.inconclusive ⟨["t1", "t2", "t3"], ["t2", "t3"], 5, 0, 3⟩ = false ∧
+    Spec.C14.inconclusive ⟨["t1", "t2", "t3"], ["t2", "t3"], 5, 0, 9⟩ = false ∧
+    Spec.C14.inconclusive ⟨["t1", "t2", "t3"], ["t2", "t3"], 5, 0, 5⟩ = true := by decide
 -- hypotheses of C14_chosen / C14_spec_holds are satisfiable
 example : Spec.C14.expected 2 1 3 = some 2 ∧ target 2 1 3 none = some 2 := by decide
 example : cyclicPrefix [1, 2] 5 = [1, 2, 1, 2, 1] := by decide
